@@ -10,8 +10,7 @@ from ..gen import netgen, opfgen
 from ..oracles import dcopf
 
 PROPERTY = "C17"
-READY = False
-NOT_READY_REASON = "under construction"
+READY = True
 TECHNIQUE = ("runtime monitoring: res_cost of every converged runopp/rundcopp compared with the user's poly/pwl cost functions "
              "evaluated at the result powers; DC-OPF optimum compared with an independent LP/QP reference (scipy HiGHS / "
              "trust-constr on an own B-matrix model)")
@@ -19,9 +18,32 @@ LEVEL = "exploration"
 CASES = {"quick": 500, "thorough": 12000}
 BUDGET = {"quick": 60, "thorough": 1200}
 CASE_TIMEOUT = 90
-FLOORS = {"quick": {"nontrivial": 150, "max_skip_frac": 0.5}, "thorough": {"nontrivial": 4000, "max_skip_frac": 0.5}}
-RULE = ""
-ASSUMPTIONS = []
+FLOORS = {"quick": {"nontrivial": 180, "max_skip_frac": 0.45,
+                    "tags": {"ac": 90, "dc": 90, "dc_ref": 60, "cost:quadratic": 60, "cost:pwl": 30, "cost:pwl_and_linear": 35,
+                             "cost:linear": 60, "cost_on:load": 150, "cost_on:storage": 60, "cost_on:sgen": 100,
+                             "cost_on:ext_grid": 150, "cost_on:gen": 150, "cost_on:dcline": 12,
+                             "c2_or_c0_on_load_storage_dcline": 100},
+                    "extras": {"cost_entries": 1500, "dc_reference": 60}},
+          "thorough": {"nontrivial": 4500, "max_skip_frac": 0.45,
+                       "tags": {"ac": 2000, "dc": 2000, "dc_ref": 1400, "cost:quadratic": 1400, "cost:pwl": 700,
+                                "cost_on:load": 3500, "cost_on:storage": 1400, "cost_on:dcline": 300,
+                                "c2_or_c0_on_load_storage_dcline": 2400},
+                       "extras": {"cost_entries": 36000, "dc_reference": 1400}}}
+RULE = ("one case = one seeded feasible-by-construction OPF problem (pv/gen/opfgen.py) with random costs on ext_grid, gen and the "
+        "controllable sgen/load/storage/dcline elements: linear or quadratic polynomials with constant terms (p and q), convex "
+        "piecewise linear functions with 1-3 segments, or both kinds mixed; runopp or rundcopp (50/50). Non-trivial = converged "
+        "and res_cost judged; for rundcopp additionally the optimum of the same problem from the reference solver")
+ASSUMPTIONS = [
+    "user cost = sum over all cost rows of c2*x^2 + c1*x + c0 (p and q part) or of the pwl function at the element's own result power "
+    "(load/storage: consumption, dcline: p_from_mw); pwl convention of create_pwl_cost: slope c_k between p_k and p_k+1, the first "
+    "segment's line passes through the origin",
+    "tolerance 1e-6 relative to the sum of |cost terms| (+ 5e-6 p.u. x sn_mva x sum of max |slope| for pwl epigraph variables)",
+    "DC reference: own B-matrix model (lines, 2W transformers with ratio taps, shunts, fused buses), validated against rundcpp of the "
+    "same network to 1e-7 rad before use (otherwise tag dc_ref_model_mismatch / dc_ref_unsupported and no optimum comparison); "
+    "LP by HiGHS, convex QP by trust-constr started from the LP vertex; optimum gap tolerance 2e-5 relative",
+    "costs are only put on elements that are part of the optimisation (ext_grid, gen, controllable sgen/load/storage, dcline)",
+    "OPF non-convergence is skipped (documented weak spot), bounded by max_skip_frac; pwl mixed with quadratic is a documented refusal",
+]
 
 FLIPPED = ("load", "storage", "dcline")
 
@@ -85,7 +107,6 @@ def cost_pieces(net):
 
 def user_cost_at(net, result_net):
     """user cost of `net` evaluated at the result powers of result_net"""
-    tmp = copy.copy(result_net)
     saved = result_net.poly_cost, result_net.pwl_cost
     try:
         result_net["poly_cost"], result_net["pwl_cost"] = net.poly_cost, net.pwl_cost
